@@ -8,7 +8,11 @@ MODULE = 'Bluebell.Props.C16'
 THEOREMS = ['Bluebell.C16_convert_ignores_state', 'Bluebell.C16_history_independent', 'Bluebell.C16_xmlFromDict_ignores_state', 'Bluebell.C16_rewrite_ignores_state', 'Bluebell.C16_pure_calls_keep_state', 'Bluebell.C16_objects_independent', 'Bluebell.C16_old_behaviour_leaked']
 
 RAISERS = ['SCHEDULE\n  P{1a b} x\n', 'SCHEDULE h\n  ANNEXURE\n    P{tag x} y\n', 'ATTACHMENT\n  x\x01\n', 'APPENDIX\n  FOOTNOTE 1\n    x{{FOOTNOTE 1}}\n',
-           'SCHEDULES foo\n', 'x\n\x0f\n']
+           'SCHEDULES foo\n', 'x\n\x0f\n',
+           # failing at every stage of an attachment: its heading, an inline in its heading, its subheading, its own attribute list,
+           # the heading of a nested attachment, the second of two attachments, and before any attachment is reached
+           'SCHEDULE h\x01\n  x\n', 'SCHEDULE {{abbr{1a b} x}}\n  y\n', 'SCHEDULE h\n  SUBHEADING s\x01\n  x\n', 'SCHEDULE{1a b} h\n  x\n',
+           'SCHEDULE a\n  x\n  ANNEXURE b\x01\n    y\n', 'SCHEDULE a\n  x\nSCHEDULE b\x01\n  y\n', 'PREFACE\n  x\x01\nSCHEDULE\n  y\n']
 PROBES = ['x\nSCHEDULE\n  y\n', 'ATTACHMENT a\n  b\nATTACHMENT c\n  d\n', 'SEC 1.\n  a\nANNEXURE\n  SCHEDULE\n    q\n', 'PART 1\n  SEC 2.\n    text\n', 'just text\n']
 
 
